@@ -50,6 +50,19 @@ static void check_conversions(int d, const std::vector<double>& c, long long idx
   // component list round trip: exact
   std::vector<double> lst = v.GetComponents();
   if (lst.size() != c.size() || !bitsame(v, lst)) violation(dsig("GetComponents:not-exact", d), J().i("d", d).arr("components", c).arr("got", lst).done());
+  { // every call hands out a list of its own: an earlier result, held by reference (a lifetime-extended temporary) while
+    // other vectors are read out, keeps its value and size; the same for the matrices
+    SU_vector other = mkvec(d == 2 ? 3 : 2, probe(d == 2 ? 3 : 2, 1)), neg = -v;
+    const std::vector<double>& held = v.GetComponents();
+    const std::vector<double>& held2 = neg.GetComponents();
+    const std::vector<double>& held3 = other.GetComponents();
+    bool ok = held.size() == c.size() && held2.size() == c.size() && held3.size() == other.Size();
+    for (size_t k = 0; ok && k < c.size(); k++) if (!ref::biteq(held[k], c[k]) || !ref::biteq(held2[k], -c[k])) ok = false;
+    if (ok && mag > 0 && v.GetComponents() == neg.GetComponents()) ok = false;
+    auto m1 = v.GetGSLMatrix(); auto m2 = neg.GetGSLMatrix(); auto m3 = other.GetGSLMatrix();
+    if (ok && (m1->size1 != (size_t)d || ref::maxabs(gsl2mat(m1.get()) - M) != 0 || ref::maxabs(gsl2mat(m2.get()) + M) != 0)) ok = false;
+    if (!ok) violation(dsig("GetComponents/GetGSLMatrix:results-share-state", d), J().i("d", d).arr("components", c).done());
+  }
   SU_vector fromlist(lst);
   if ((int)fromlist.Dim() != d || !bitsame(fromlist, c)) violation(dsig("SU_vector(list):not-exact", d), J().i("d", d).arr("components", c).arr("got", comps(fromlist)).done());
   // Transpose / Real / Imag
